@@ -10,7 +10,7 @@ Module naming convention inside the harness crates:
 
 # jobs: parallel CBMC processes; ht: per-harness timeout (s); mem: address-space cap for the whole
 # cargo-kani process tree in GB (per process limit via ulimit -v)
-DEFAULT = dict(jobs=16, ht_quick=600, ht_thorough=1800, mem_gb=14)
+DEFAULT = dict(jobs=16, ht_quick=600, ht_thorough=1800, mem_gb=24)
 
 PROPS = {}
 
@@ -104,14 +104,15 @@ prop(
                "cost_ops::{calculate_vehicle_costs, calculate_network_traversal_costs, calculate_network_access_costs}",
                "CostAggregation::agg_iter (Sum, Mul)", "VehicleCostRate::map_value", "NetworkCostRate::{traversal_cost, access_cost}",
                "Cost::{enforce_strictly_positive, enforce_non_negative}"],
-    bounds=("shapes concrete per harness: n = 1 (quick) and 2 (thorough) features; rate variant per feature in {Zero, Raw, Factor, Offset} at model level, + Combined[Factor,Offset] at kernel level (thorough); "
-            "network rate in {Zero, EdgeLookup(1 entry), EdgeEdgeLookup(1 entry)} (+ Combined, thorough); aggregation Sum / Mul. Symbolic: previous/next state any finite f64 in +-1e9, weights, factors, offsets in +-1e6, "
+    bounds=("shapes concrete per harness: n = 1 (quick) and 2 (thorough) features; rate variant per feature in {Zero, Raw, Factor, Offset}; "
+            "network rate in {Zero, EdgeLookup(1 entry), EdgeEdgeLookup(1 entry)}; aggregation Sum / Mul. Symbolic: previous/next state any finite f64 in +-1e9, weights, factors, offsets in +-1e6, "
             "surcharges in +-1e9, all edge ids any usize. Formula harnesses pin weight/factor/offset to per-instance constants. unwind 2-5 (loops over features and rate lists; recursion of Combined rates)"),
     assumptions=[
         "hook H2: CostModel::verif_from_parts (cfg(kani) only) fills the private fields directly; CostModel::new (by-name lookups in std HashMaps, zero-weight-sum rejection) is NOT covered",
         "hook H1: lookup tables of NetworkCostRate are the fixed-capacity table model",
         "model-level harnesses replace the recursive kernels VehicleCostRate::map_value and NetworkCostRate::{traversal_cost, access_cost} by non-recursive stubs that are exact for the leaf variants and refuse Combined (assume false); the real kernels are decided separately per shape (assume-guarantee). Reason: a rate read from the model's heap vectors has a discriminant CBMC cannot fold and the recursion is unrolled to the bound in every arm (5-17 GB, no verdict)",
         "'equals weight x rated change' is decided to within 0.1 percent, with zero-weight / zero-rate contributions exactly zero and signs exact; bit-exact equality of products is a multiplier-equivalence SAT problem (no verdict)",
+        "Combined vehicle rates and combined network rates are NOT covered, not even one level deep (c07::attempts: the recursion-unwinding assertion cannot be discharged for a rate whose discriminant lives on the heap; larger bounds exceed 5 GB); the exact composition 'vehicle part + surcharge, floored' at model level did not return in 1800 s (the floor / clip helpers are decided exactly, the model-level claim is finite and > 0)",
         "Mul aggregation and n >= 3 features: positivity/finiteness only; linearity in the weights is not decided beyond sign/zero structure and the 0.1 percent formula",
         "EdgeTraversal::total_cost() (access + (total - access)) is not covered here; see C03",
         "costs that are positive but smaller than the 1e-10 floor are accepted (the property asks for strictly positive)",
@@ -122,7 +123,12 @@ prop(
 
 prop(
     "C17",
-    runs=[dict(crate="core", quick=["c17::q::"], thorough=["c17::q::", "c17::t::"])],
+    # thorough is split into several Kani invocations with fewer jobs: kani-driver itself grew past
+    # 14 GB resident when 16 of the large product shapes were parsed concurrently
+    runs=[dict(crate="core", quick=["c17::q::"], thorough=["c17::q::"], jobs=8),
+          dict(crate="core", quick=[], thorough=["c17::t::s1"], jobs=6),
+          dict(crate="core", quick=[], thorough=["c17::t::s2"], jobs=6),
+          dict(crate="core", quick=[], thorough=["c17::t::s3"], jobs=6)],
     functions=["MultiSet::from", "MultiSet::next (Iterator)"],
     bounds=("shape space enumerated exhaustively: 1..3 axes with 1..3 options each (39 shapes; 8 in the quick tier); element values symbolic (u8); "
             "unwind prod(n_i)+4; each shape: prod(n_i)+2 calls of next()"),
@@ -137,7 +143,7 @@ prop(
 
 prop(
     "C12",
-    runs=[dict(crate="core", quick=["c17::dq::"], thorough=["c17::dq::", "c17::dt::"]),
+    runs=[dict(crate="core", quick=["c17::dq::"], thorough=["c17::dq::", "c17::dt::"], jobs=8),
           dict(crate="app", quick=["c12::q::"], thorough=["c12::q::"])],
     functions=["MultiSet::from", "MultiSet::next", "InjectInputPlugin::process"],
     bounds=("MultiSet: every degenerate shape (no axes, or at least one empty axis) up to 3 axes x 0..3 options (46 shapes; 13 in the quick tier), element values symbolic, 3 calls of next(); "
@@ -172,19 +178,20 @@ prop(
 
 prop(
     "C14",
-    runs=[dict(crate="pt", quick=["c14::q::"], thorough=["c14::q::", "c14::t::"])],
+    runs=[dict(crate="pt", quick=["c14::q::", "c14b::q::"], thorough=["c14::q::", "c14::t::", "c14b::q::", "c14b::t::"])],
     functions=["utils::find_nearest_index", "Interp1D::{new, linear, left_nearest, right_nearest, nearest}", "Interp2D::new", "Interpolator::{interpolate, validate_inputs}",
                "InterpolationSpeedGradeModel::predict (built with the verification-only constructor verif_from_parts)"],
     bounds=("axes: every strictly increasing axis of length 2, 3, 4 with finite values in [-1e3, 2e3]; table values any finite f64 in +-1e6; query point any f64 (in range for the lookup, outside for rejection, ANY finite speed / grade for predict); "
             "grids 1-D x3, x4; 2-D 2x3 and 2x2; unwind 6-7"),
     assumptions=[
         "hook H2: InterpolationSpeedGradeModel::verif_from_parts (cfg(kani) only) wraps an interpolator; `new` (model file, linspace grid, underlying model evaluation) is NOT covered",
-        "the blend arithmetic is NOT decided: value within the corner range, value at 2-D/3-D grid points, exactness for multilinear data, 1-D/2-D/3-D/N-D agreement, continuity across cell borders (symbolic divisions and products: 240-420 s probe timeouts); N-D (ndarray) not covered",
+        "2-D: on a pinned non-uniform 3 x 3 grid with symbolic table values the interpolator returns the table value EXACTLY at each of the nine grid points (quick); at one pinned interior point the value lies within the corner range (thorough, 824 s; a second point did not return in 1200 s)",
+        "otherwise the blend arithmetic is NOT decided: corner range for arbitrary points and symbolic axes, 3-D grid points, exactness for multilinear data, 1-D/2-D/3-D/N-D agreement, continuity across cell borders; N-D (ndarray) not covered",
         "predict: query given in the model's own units (input unit conversion is property C09)",
         "std::fmt::format stubbed",
     ],
     out=["interpolated value bounds / exactness", "InterpND", "bundled vehicle models, smartcore agreement"],
-    oracle="cell containment a[i] <= t <= a[i+1]; table value at 1-D grid points; neighbours for nearest strategies; Err outside grid / wrong dimension; predict never fails",
+    oracle="cell containment a[i] <= t <= a[i+1]; table value at 1-D and 2-D grid points; neighbours for nearest strategies; corner range at an interior point; Err outside grid / wrong dimension; predict never fails",
 )
 
 prop(
